@@ -242,3 +242,199 @@ func entryEdge(phi *ssa.Phi, l *natLoop) ssa.Value {
 }
 
 var _ = types.Identical
+
+// ---------------------------------------------------------------------------
+// R-FILL (round 12, own mutation probe: `if len(s.SafeDetails) <= 1 { return slice }` passes the pinned suite)
+
+var rFill = &Rule{
+	Name: "R-FILL",
+	Doc: "(*SafeDetailPayload).Fill - through which barriers and secondary-error wrappers relay the safe details of every hidden layer - relays ALL of a layer's details: " +
+		"(a) every comparison of len(s.SafeDetails) with a constant in the method is an emptiness test (== 0, != 0, > 0, < 1 …), so the pass-through of the caller's slice happens for a layer without details only; " +
+		"(b) no bounded sub-slice of s.SafeDetails is taken; (c) a loop over s.SafeDetails appends its element to the slice that is returned. " +
+		"A guard that also lets a layer with ONE detail through unrelayed, or a loop over a part of the list, drops strings the library declared safe from the reports of every error behind a barrier or in a secondary error",
+	Run: func(c *core.Ctx) {
+		p := c.P
+		nm := p.Named("errbase", "SafeDetailPayload")
+		var fn *ssa.Function
+		if nm != nil {
+			fn = p.Method(nm, "Fill")
+		}
+		if fn == nil || fn.Blocks == nil {
+			c.InternalErr("errbase.(*SafeDetailPayload).Fill", "anchor method not found")
+			return
+		}
+		name := load.FnName(fn)
+		// the method and the same-package helpers it hands the details to (a helper's parameter stands for the argument)
+		isDet := map[ssa.Value]bool{}
+		funcs := []*ssa.Function{fn}
+		var isDetailsLoad func(v ssa.Value) bool
+		isDetailsLoad = func(v ssa.Value) bool {
+			if isDet[identity(v)] {
+				return true
+			}
+			if sl, isSl := identity(v).(*ssa.Slice); isSl && sl.Low == nil && sl.High == nil {
+				return isDetailsLoad(sl.X)
+			}
+			ld, ok := identity(v).(*ssa.UnOp)
+			if !ok || ld.Op != token.MUL {
+				return false
+			}
+			fa, ok := ld.X.(*ssa.FieldAddr)
+			return ok && sx.FieldOf(fa) != nil && sx.FieldOf(fa).Name() == "SafeDetails"
+		}
+		isLen := func(v ssa.Value) bool {
+			call, ok := v.(*ssa.Call)
+			if !ok {
+				return false
+			}
+			b, ok := call.Call.Value.(*ssa.Builtin)
+			return ok && b.Name() == "len" && len(call.Call.Args) == 1 && isDetailsLoad(call.Call.Args[0])
+		}
+		nCmp, nLoop := 0, 0
+		for i := 0; i < len(funcs) && i < 4; i++ {
+			sx.EachInstr(funcs[i], func(in ssa.Instruction) {
+				call, ok := in.(*ssa.Call)
+				if !ok {
+					return
+				}
+				h := sx.Callee(call)
+				if h == nil || h.Blocks == nil || h.Pkg != fn.Pkg || h == fn {
+					return
+				}
+				for j, a := range call.Call.Args {
+					if j < len(h.Params) && isDetailsLoad(a) && !isDet[h.Params[j]] {
+						isDet[h.Params[j]] = true
+						known := false
+						for _, g := range funcs {
+							known = known || g == h
+						}
+						if !known {
+							funcs = append(funcs, h)
+						}
+					}
+				}
+			})
+		}
+		for _, g := range funcs {
+			sx.EachInstr(g, func(in ssa.Instruction) {
+				switch x := in.(type) {
+				case *ssa.BinOp:
+					switch x.Op {
+					case token.EQL, token.NEQ, token.LSS, token.LEQ, token.GTR, token.GEQ:
+					default:
+						return // arithmetic on the length (a capacity hint, say) is no test
+					}
+					var k int64
+					var isK, lenLeft bool
+					if isLen(x.X) {
+						k, isK = sx.ConstInt(x.Y)
+						lenLeft = true
+					} else if isLen(x.Y) {
+						k, isK = sx.ConstInt(x.X)
+					} else {
+						return
+					}
+					if !isK {
+						return
+					}
+					nCmp++
+					op := x.Op
+					if !lenLeft { // k OP len  ==  len OP' k
+						switch op {
+						case token.LSS:
+							op = token.GTR
+						case token.GTR:
+							op = token.LSS
+						case token.LEQ:
+							op = token.GEQ
+						case token.GEQ:
+							op = token.LEQ
+						}
+					}
+					empt := (k == 0 && (op == token.EQL || op == token.NEQ || op == token.GTR || op == token.LEQ)) || (k == 1 && (op == token.LSS || op == token.GEQ))
+					c.Check(empt, name+": test of len(s.SafeDetails)", x.Pos(), "an emptiness test",
+						"the number of safe details of a layer is compared with a constant in a way that is not an emptiness test: layers with few details (one, say) are treated like layers without any, and their safe strings are not relayed by the barrier / secondary-error wrapper that hides them")
+				case *ssa.Slice:
+					if isDetailsLoad(x.X) && (x.Low != nil || x.High != nil) {
+						if k, isK := sx.ConstInt(x.Low); !(x.High == nil && isK && k == 0) {
+							c.Fail(name+": sub-slice of s.SafeDetails", x.Pos(), "only a part of the layer's safe details is relayed: the others are dropped from the reports of errors behind a barrier or in a secondary error")
+						}
+					}
+				}
+			})
+		}
+		// (c) a loop whose element load comes from s.SafeDetails feeds an append whose result reaches a return
+		for _, g := range funcs {
+			for _, l := range naturalLoops(g) {
+				for b := range l.Body {
+					for _, in := range b.Instrs {
+						ia, ok := in.(*ssa.IndexAddr)
+						if !ok || !isDetailsLoad(ia.X) {
+							continue
+						}
+						nLoop++
+					}
+				}
+			}
+		}
+		c.Check(nLoop >= 1, name+": loop over s.SafeDetails", fn.Pos(), "every detail is visited", "Fill no longer loops over the layer's safe details")
+		okRet := true
+		for _, r := range sx.Returns(fn) {
+			if len(r.Results) != 1 || !freshOrGrownFrom(r.Results[0], fn.Params[len(fn.Params)-1], map[ssa.Value]bool{}, 0) {
+				okRet = false
+			}
+		}
+		c.Check(okRet, name+": result", fn.Pos(), "the caller's slice, grown by appends", "Fill returns something else than the caller's slice grown by appends: what was collected from the outer layers is lost")
+		c.Note("R-FILL: %d constant comparisons of len(s.SafeDetails), %d element loads in loops", nCmp, nLoop)
+	},
+}
+
+// freshOrGrownFrom: v is base, or appends on top of it (through phis).
+func freshOrGrownFrom(v, base ssa.Value, seen map[ssa.Value]bool, d int) bool {
+	if d > 10 {
+		return false
+	}
+	if seen[v] {
+		return true
+	}
+	seen[v] = true
+	if v == base {
+		return true
+	}
+	switch x := v.(type) {
+	case *ssa.Phi:
+		for _, e := range x.Edges {
+			if !freshOrGrownFrom(e, base, seen, d+1) {
+				return false
+			}
+		}
+		return true
+	case *ssa.Call:
+		if b, ok := x.Call.Value.(*ssa.Builtin); ok && b.Name() == "append" {
+			if freshOrGrownFrom(x.Call.Args[0], base, seen, d+1) {
+				return true
+			}
+			// append(make(…), slice...): a copy that starts with the caller's elements
+			return len(x.Call.Args) == 2 && types.Identical(x.Call.Args[1].Type(), x.Type()) && freshOrGrownFrom(x.Call.Args[1], base, seen, d+1)
+		}
+		// a same-package helper that grows the slice it is given
+		if h := sx.Callee(x); h != nil && h.Blocks != nil && x.Parent() != nil && h.Pkg == x.Parent().Pkg && h != x.Parent() {
+			for j, a := range x.Call.Args {
+				if j >= len(h.Params) || !types.Identical(a.Type(), x.Type()) || !freshOrGrownFrom(a, base, seen, d+1) {
+					continue
+				}
+				rets := sx.Returns(h)
+				okAll := len(rets) > 0
+				for _, r := range rets {
+					if len(r.Results) != 1 || !freshOrGrownFrom(r.Results[0], h.Params[j], map[ssa.Value]bool{}, d+1) {
+						okAll = false
+					}
+				}
+				if okAll {
+					return true
+				}
+			}
+		}
+	}
+	return false
+}
